@@ -2,6 +2,7 @@ import WmModel.Basic
 import WmModel.GcConf
 import WmModel.GcMon
 import WmModel.GcTopicConf
+import WmModel.GcRegConf
 open Wm
 
 /-- `sub` streams: model = conformance with M_sub (subset construction), no property verdict of its own here;
@@ -16,6 +17,8 @@ def handle (line : String) : String :=
     | some c => GcConf.checkSub c (if toks == ["-"] then [] else toks)
     | none => "bad-op"
   | "P" :: "sub" :: _ => "ok"
+  | "M" :: "reg" :: toks => GcRegConf.checkReg toks
+  | "P" :: "reg" :: _ => "ok"
   | "M" :: "topic" :: toks => GcTopicConf.checkTopic toks
   | "P" :: "topic" :: _ => "ok"
   | "M" :: "top" :: _ => "ok"
